@@ -78,6 +78,26 @@ CALLED = [
     "Select(ds, lambda {A}: (lambda {P}, {Q}: Count(Where(Select({P}, lambda {C}: {C}.i_pt), lambda {C}: {C} > {Q})))({A}.so_jets, {A}.i_pt))",
     "Select(ds, lambda {A}: (lambda {P}: First(Select({P}.so_jets, lambda {C}: ({C}.i_pt, {P}.i_eta)))[1] + {P}.i_pt)({A}.o_p))",
     "Where(ds, lambda {A}: (lambda {P}: Count(Where(Select({P}, lambda {C}: {C}.i_pt), lambda {Q}: {Q} > 1)) > 0)({A}.so_jets))",
+    # the argument mentions the outer variable and is used under an inner lambda that may re-use that variable's name, inside a chain
+    # that gets fused (the rules visit what they build a second time, while the substitution is still pending)
+    "Select(ds, lambda {A}: (lambda {P}: Select({A}.so_trk, lambda {B}: Count(Where(Where({P}, lambda {C}: {C}.i_pt > {B}.i_pt), lambda {Q}: {Q}.i_eta < 10))))({A}.so_jets))",
+    "Select(ds, lambda {A}: (lambda {P}: Select({A}.so_trk, lambda {B}: Count(Select(Select({B}.so_jets, lambda {C}: {C}.i_pt + {P}.i_pt), lambda {Q}: {Q} * 2))))({A}.o_p))",
+    "Select(ds, lambda {A}: (lambda {P}: Select({A}.so_trk, lambda {B}: Count(Where(Select({B}.so_jets, lambda {C}: {C}.i_pt + {P}), lambda {Q}: {Q} > 2))))({A}.i_eta))",
+    "Select(ds, lambda {A}: (lambda {P}: Select({A}.so_trk, lambda {B}: Count(Select(SelectMany({B}.so_jets, lambda {C}: {C}.so_trk), lambda {Q}: {Q}.i_pt + {P}))))({A}.i_eta))",
+    "Select(ds, lambda {A}: (lambda {P}: Select({A}.so_trk, lambda {B}: First({P})[0] + {B}.i_pt))(Select({A}.so_jets, lambda {C}: ({C}.i_pt, {A}.i_eta))))",
+    "Select(ds, lambda {A}: (lambda {P}: SelectMany({A}.so_trk, lambda {B}: Where(SelectMany({B}.so_jets, lambda {C}: {C}.so_trk), lambda {Q}: {Q}.i_pt > {P})))({A}.i_eta))",
+    # parameters with default values (the default belongs to the scope the lambda is written in)
+    "Select(ds, lambda {A}: (lambda {P}, {Q}=3: {P} + {Q})({A}.i_pt))",
+    "Select(ds, lambda {A}: (lambda {P}, {Q}={A}.i_eta: {P} - {Q})({A}.i_pt))",
+    "Select(ds, lambda {A}: (lambda {P}, {Q}=1: {P} - {Q})({A}.i_pt, {A}.i_eta))",
+    "Select(ds, lambda {A}: (lambda {P}=5, {Q}=1: {P} - {Q})({Q}={A}.i_pt))",
+    "Select(ds, lambda {A}: Select({A}.so_jets, lambda {C}: (lambda {P}, {Q}={A}.i_pt: {P}.i_pt + {Q})({C})))",
+    # lambdas without parameters
+    "Select(Select(ds, lambda {A}: First({A}.so_jets)), lambda {B}: (lambda: 1000)() + {B}.i_pt)",
+    "Select(Select(ds, lambda {A}: {A}.o_p), lambda {B}: Count(Select({B}.so_jets, lambda {C}: (lambda: {B}.i_eta)() + {C}.i_pt + {B}.i_pt)))",
+    "Where(Select(ds, lambda {A}: {A}.o_p), lambda {B}: (lambda: 2)() < {B}.i_pt)",
+    "Select(ds, lambda {A}: (lambda {P}, {Q}: ((lambda: 2)() * {P}, {Q}))({A}.i_pt, Count({A}.so_jets)))",
+    "Select(ds, lambda {A}: Select({A}.so_jets, lambda {C}: (lambda {P}: (lambda: {A}.i_eta)() + {P}.i_pt + {C}.i_eta)({C})))",
 ]
 
 FIRST = [
@@ -111,6 +131,18 @@ LITERAL = [
     "Where(Where(Where(ds, lambda {A}: {A}.i_pt > 1), lambda {B}: {B}.i_eta < 2), lambda {C}: Count({C}.so_jets) > 0)",
     "Select(Select(ds, lambda {A}: {A}), lambda {B}: {B}.i_pt)",
     "Select(Select(ds, lambda {A}: {A}.o_p), lambda {B}: {B})",
+    # compositions that come out as the identity lambda
+    "SelectMany(Select(ds, lambda {A}: ({A}.so_jets, {A}.i_pt)), lambda {B}: {B}[0])",
+    "SelectMany(Select(Select(ds, lambda {A}: {A}.so_jets), lambda {B}: ({B}, Count({B}))), lambda {C}: {C}[0])",
+    "SelectMany(Select(Select(ds, lambda {A}: {A}.so_jets), lambda {B}: {{'s': {B}}}), lambda {C}: {C}.s)",
+    "Select(Select(Select(ds, lambda {A}: {A}.so_jets), lambda {B}: [{B}]), lambda {C}: {C}[0])",
+    "Where(Select(Select(ds, lambda {A}: {A}.i_pt), lambda {B}: ({B}, 1)), lambda {C}: {C}[0] > 1)",
+    "Select(ds, lambda {A}: Count(SelectMany(Select({A}.ss_rows, lambda {B}: ({B}, {A}.i_pt)), lambda {C}: {C}[0])))",
+    "SelectMany(ds, lambda {A}: SelectMany(Select({A}.ss_rows, lambda {B}: ({B}, 1)), lambda {C}: {C}[0]))",
+    "Select(ds, lambda {A}: Count(SelectMany(Select({A}.ss_rows, lambda {B}: {{'v': {B}}}), lambda {C}: {C}.v)))",
+    "Select(ds, lambda {A}: Select(SelectMany(Select({A}.ss_rows, lambda {B}: [{B}]), lambda {C}: {C}[0]), lambda {B}: {B}.i_pt))",
+    "Select(ds, lambda {A}: Count(Where(SelectMany(Select({A}.ss_rows, lambda {B}: (1, {B})), lambda {C}: (lambda {P}: {P})({C}[1])), lambda {B}: {B}.i_pt > 2)))",
+    "Select(ds, lambda {A}: Count(Select(Select({A}.ss_rows, lambda {B}: {B}), lambda {C}: Count({C}))))",
 ]
 
 DEEP = [
